@@ -19,7 +19,7 @@ RULE = (
     "case = (back end, generated host query, graft kind, graft position = index of the numeric / column production it replaces). asserted "
     "catalogue: operators // << >> | ^ & @ ~, comparison chains, in / is, Aggregate(f) and Aggregate(f, g), slices, + - * / % ** unary and "
     "comparison with a collection operand, raw-object output columns (collection, singleton, First() of objects, object in a tuple), sequence "
-    "operators on a scalar, wrong number of column names, getAttribute, math.sin module calls, keyword arguments (silently dropped before the fix), metadata without / with unknown "
+    "operators on a scalar, a member or method of a number / bool, wrong number of column names, getAttribute, math.sin module calls, keyword arguments (silently dropped before the fix), metadata without / with unknown "
     "metadata_type, with a missing or unknown key. non-trivial = graft at lambda depth >= 2 or behind a rewrite (First-method, fused "
     "Select/Where, ifexp arm, and/or operand); distinct by (graft kind, depth, host shape)."
 )
@@ -32,6 +32,7 @@ NUM_GRAFTS = [
     "seq-negneg", "seq-posneg", "seq-notnot", "seq-neg4", "vec-negneg", "seq-cmp-rhs", "seq-sub-rhs",
     "agg-1", "agg-2", "slice", "slice-step", "scalar-Select", "scalar-Count", "scalar-Where", "scalar-First", "scalar-Sum", "math-module",
     "getAttribute", "kwarg-method", "kwarg-function", "kwarg-aggregate", "kwarg-collection",
+    "num-member", "num-method", "bool-member", "bool-method", "num-member-chain",
 ]
 COL_GRAFTS = ["raw-collection", "raw-singleton", "raw-first-object", "raw-object-var", "raw-objvec"]
 TOP_GRAFTS = ["names-too-few", "names-too-many", "md-no-type", "md-unknown-type", "md-missing-key", "md-unknown-key"]
@@ -70,7 +71,9 @@ class GraftGen(QGen):
         simple = {"floordiv": f"({t} // {M})", "lshift": f"({t} << {M})", "rshift": f"({t} >> {M})", "bitor": f"({t} | {M})", "bitxor": f"({t} ^ {M})",
                   "bitand": f"({t} & {M})", "matmul": f"({t} @ {M})", "invert": f"(~({t} + {M}))", "chain": f"(0 < {t} < {M})", "in": f"({t} in (1, {M}))", "is": f"({t} is {M})",
                   "scalar-Select": f"({t}).Select(lambda s: s + {M})", "scalar-Count": f"({t} + {M}).Count()", "scalar-Where": f"({t}).Where(lambda s: s > {M}).Count()",
-                  "scalar-First": f"({t} + {M}).First()", "scalar-Sum": f"({t} + {M}).Sum()", "math-module": f"math.sin({t} + {M})"}
+                  "scalar-First": f"({t} + {M}).First()", "scalar-Sum": f"({t} + {M}).Sum()", "math-module": f"math.sin({t} + {M})",
+                  "num-member": f"(({t} + {M}).foo)", "num-method": f"(({t} + {M}).foo())", "bool-member": f"(({t} > {M}).foo)", "bool-method": f"(({t} > {M}).foo())",
+                  "num-member-chain": f"(({t} + {M}).foo.bar + 1)"}
         if k in simple:
             return simple[k]
         if k == "kwarg-function":
